@@ -720,11 +720,10 @@ def _clamp_check(arr, lo, hi, prim):
                 v = hi
             out[k] = to_P(v)
             continue
-        if lo is not None and not alg.is_nonneg(x - to_P(lo)):
-            raise Unmodelled("%s: cannot show value >= %s" % (prim, lo))
-        if hi is not None and not alg.is_nonneg(to_P(hi) - x):
-            raise Unmodelled("%s: cannot show value <= %s" % (prim, hi))
-        out[k] = x
+        need_lo = lo is not None and not alg.is_nonneg(x - to_P(lo))
+        need_hi = hi is not None and not alg.is_nonneg(to_P(hi) - x)
+        # a bound that provably never binds disappears; otherwise the clamp stays as an opaque atom with a numeric reading
+        out[k] = alg.clampf(x, lo if need_lo else None, hi if need_hi else None)
     return out
 
 
